@@ -8,23 +8,27 @@ import (
 	"github.com/pokt-network/pocket-core/x/auth/types"
 	v "github.com/pokt-network/pocket-core/verifrt"
 	"github.com/tendermint/tendermint/crypto/tmhash"
+	abci "github.com/tendermint/tendermint/abci/types"
 	tmtypes "github.com/tendermint/tendermint/types"
 )
 
 //verif:config VerifC16ante native=no idealhash=yes
 
-// c16Indexer: the node's transaction index after one executed transaction `done`: Get finds a
+// c16Indexer: the node's transaction index after one executed transaction `done` (executed =
+// got past the ante handler; its handler may have failed: arbitrary result code): Get finds a
 // result exactly for the hash AddBatch stored it under.
 type c16Indexer struct {
 	tmIndexer
 	done  []byte
+	code  uint32
 	asked *[][]byte
 }
 
 func (ix c16Indexer) Get(hash []byte) (*tmtypes.TxResult, error) {
 	*ix.asked = append(*ix.asked, hash)
 	if bytes.Equal(hash, tmhash.Sum(ix.done)) {
-		return &tmtypes.TxResult{Tx: ix.done}, nil
+		// (the executed transaction may have failed in its handler: any result code)
+		return &tmtypes.TxResult{Tx: ix.done, Result: abci.ResponseDeliverTx{Code: ix.code}}, nil
 	}
 	return nil, nil
 }
@@ -40,7 +44,7 @@ func VerifC16ante() {
 	var asked [][]byte
 	var err sdk.Error
 	if v.ExpectPanic(func() {
-		_, err = ValidateTransaction(w.ctx, w.k, tx, w.params, c16Indexer{done: done, asked: &asked}, txBz, v.Choice(2) == 1)
+		_, err = ValidateTransaction(w.ctx, w.k, tx, w.params, c16Indexer{done: done, code: v.U32(), asked: &asked}, txBz, v.Choice(2) == 1)
 	}) {
 		return
 	}
